@@ -3,64 +3,92 @@
 //# mount: crypto/src/hash/mds/mds_f64_12x12.rs
 //# modpath: hash::mds::mds_f64_12x12
 //# props: C16
-//! C16 — the frequency-domain MDS multiplication used by Rp64_256 (`mds_multiply`: split into 32-bit halves,
-//! real 4-point FFTs, block products with the small frequency-domain constants, inverse FFTs, final
-//! reduction of a 96-bit value) equals the product with the published circulant MDS matrix (first row
-//! 7, 23, 8, 26, 13, 10, 9, 7, 6, 22, 21, 8) on EVERY state: all multiplications are by small constants, so
-//! the comparison is bit-precise over the full 12 x 64-bit input space, one output word per harness. The
-//! state words are Montgomery residues and the matrix product is linear, so the identity is stated on the
-//! residues: result[r] == sum_j M[r][j] * state[j] (mod p), result[r] canonical.
-#![allow(unused_imports, dead_code)]
+//! C16 — the frequency-domain MDS multiplication used by Rp64_256, as two modular contracts (the whole of
+//! `mds_multiply` against the matrix product in one query did not finish in 50 minutes). Only the SECOND contract
+//! is decided; the first did not finish either and is not claimed:
+//! * `mds_multiply_freq` on 12 words below 2^32 (how `mds_multiply` calls it: on the low and on the high halves)
+//!   returns, word by word and without any reduction, the integer product with the published circulant matrix
+//!   (first row 7, 23, 8, 26, 13, 10, 9, 7, 6, 22, 21, 8) - all multiplications are by small constants;
+//! * `mds_multiply`, with `mds_multiply_freq` replaced by a stand-in returning arbitrary words in the range the
+//!   first contract implies (< 2^41), recombines low + 2^32 * high and reduces the 96-bit value correctly:
+//!   result == low + 2^32 * high (mod p) - as a residue below 2^64, not necessarily below p.
+#![allow(unused_imports, dead_code, static_mut_refs)]
 use utils::{vcheck, vreach, verif_support as vs};
 
 use super::*;
 
 const P: u128 = 0xffff_ffff_0000_0001;
-const ROW: [u128; 12] = [7, 23, 8, 26, 13, 10, 9, 7, 6, 22, 21, 8];
+const ROW: [u64; 12] = [7, 23, 8, 26, 13, 10, 9, 7, 6, 22, 21, 8];
 
-fn any_state() -> [BaseElement; 12] {
-    let mut s = [BaseElement::ZERO; 12];
+/// output word `r` of mds_multiply_freq against row `r` of the circulant matrix, over the integers
+fn freq_word_matches(r: usize) {
+    let mut s = [0u64; 12];
     let mut i = 0;
     while i < 12 {
-        let v = vs::any_u64();
-        vs::assume((v as u128) < P);
-        s[i] = BaseElement::from_mont(v);
+        let v = vs::any_u32();
+        s[i] = v as u64;
         i += 1;
     }
-    s
-}
-
-/// output word `r` of mds_multiply against row `r` of the circulant matrix
-fn word_matches(r: usize) {
-    let s = any_state();
-    let mut t = s;
-    mds_multiply(&mut t);
-    let mut acc: u128 = 0;
+    let t = mds_multiply_freq(s);
+    let mut acc: u64 = 0;
     let mut j = 0;
     while j < 12 {
         // M[r][j] = ROW[(j - r) mod 12]
-        acc += ROW[(j + 12 - r) % 12] * (s[j].inner() as u128);
+        acc += ROW[(j + 12 - r) % 12] * s[j];
         j += 1;
     }
-    // reference reduction of the (< 2^73) integer product without division: 2^64 = 2^32 - 1 (mod p)
-    let lo = acc & 0xffff_ffff_ffff_ffff;
-    let hi = acc >> 64;
-    let mut w = lo + hi * 0xffff_ffff; // < 2^64 + 2^41
-    if w >= P {
-        w -= P;
-    }
-    if w >= P {
-        w -= P;
-    }
-    let got = t[r].inner() as u128;
-    vcheck!("C16.rp64.mds.word_equals_matrix_row_product", got == w || got == w + P);
-    vcheck!("C16.rp64.mds.word_canonical", got < P);
+    vcheck!("C16.rp64.mds_freq.word_equals_integer_matrix_row_product", t[r] == acc);
 }
 
-//# harness: fn=mds_multiply, mds_multiply_freq, block1, block2, block3 (output word 0); label=complete (every state of 12 canonical words); tier=quick; uses=word_matches,any_state; timeout=1500
+static mut FREQ_OUT: [[u64; 12]; 2] = [[0; 12]; 2];
+static mut FREQ_CALLS: usize = 0;
+/// stands for mds_multiply_freq: arbitrary outputs in the range its contract implies (12 * 26 * 2^32 < 2^41)
+fn fresh_freq(_state: [u64; 12]) -> [u64; 12] {
+    unsafe {
+        let k = FREQ_CALLS;
+        FREQ_CALLS += 1;
+        FREQ_OUT[k & 1]
+    }
+}
+
+//# harness: fn=mds_multiply (recombination of the two halves and final 96-bit reduction); label=complete (every pair of frequency-domain outputs below 2^41 per word); tier=quick; timeout=900
 #[cfg_attr(kani, kani::proof)]
 #[cfg_attr(kani, kani::unwind(14))]
-pub fn k_c16_mds_word0() {
-    word_matches(0);
-    vreach!("C16.mds.0.reach");
+#[cfg_attr(kani, kani::stub(mds_multiply_freq, fresh_freq))]
+pub fn k_c16_mds_recombine_and_reduce() {
+    let mut h = [0u64; 12];
+    let mut l = [0u64; 12];
+    let mut i = 0;
+    while i < 12 {
+        h[i] = vs::any_u64();
+        l[i] = vs::any_u64();
+        vs::assume(h[i] < (1 << 41) && l[i] < (1 << 41));
+        i += 1;
+    }
+    unsafe {
+        FREQ_CALLS = 0;
+        FREQ_OUT = [h, l]; // the code transforms the high halves first
+    }
+    let mut state = [BaseElement::ZERO; 12];
+    mds_multiply(&mut state);
+    let r = vs::any_usize();
+    vs::assume(r < 12);
+    // reference: low + 2^32 * high < 2^74, reduced without division (2^64 = 2^32 - 1 mod p)
+    let acc = l[r] as u128 + ((h[r] as u128) << 32);
+    let mut w = (acc & 0xffff_ffff_ffff_ffff) + (acc >> 64) * 0xffff_ffff;
+    if w >= P {
+        w -= P;
+    }
+    if w >= P {
+        w -= P;
+    }
+    let got = state[r].inner() as u128;
+    // the result is the right residue class; it is NOT always the canonical representative (witness: state word 0 =
+    // from_mont(10540996611094048184), others zero, gives inner value p + 4) - see the obligation
+    // C16.rp64.add_constants.canonicalises_any_mds_output in unit c16_rp64 for why that does not reach the digest
+    vcheck!("C16.rp64.mds.recombination_reduced_correctly", unsafe { FREQ_CALLS } == 2 && (got == w || got == w + P));
+    vreach!("C16.mds.reduce.reach");
 }
+
+// (the first contract - `mds_multiply_freq` equals the integer matrix product, one output word over all 12 x 32-bit
+// inputs - did not finish in 15 minutes and is NOT claimed; `freq_word_matches` is kept for reference only)
